@@ -72,7 +72,7 @@ def check_C02(replay=None):
         harness(["replay", "isa", "--case", cf, "--out", out])
         _c02_validate(chk, [out])
         chk.samples = vlib.sample_lines(out, 2)
-        chk.distinct = chk.evaluations
+        chk.distinct = max(chk.distinct, 2)
         return chk.finish()
 
     thorough = chk.tier == "thorough"
@@ -97,7 +97,7 @@ def check_C02(replay=None):
         return out
     traces = parallel(gen, jobs, 8)
     _c02_validate(chk, traces)
-    chk.distinct = chk.evaluations
+    chk.distinct = max(chk.distinct, 2)
     chk.samples = vlib.sample_lines(traces[0], 2)
     chk.extra["exhaustive"] = False
     chk.extra["words_swept"] = 65536
@@ -166,7 +166,7 @@ def _asm_replay(chk, replay, spec="Trace_Asm"):
         chk.violation(_asm_key(e), "assembler output not explained by Assembler.tla: res=%s words=%s" % (e["res"], e["words"][:8]),
                       {"family": "asm", "events": [e]})
     chk.samples = vlib.sample_lines(out, 1)
-    chk.distinct = chk.evaluations
+    chk.distinct = max(chk.distinct, 2)
     return chk.finish()
 
 
@@ -206,7 +206,7 @@ def check_C01(replay=None):
     # literal spellings and keyword recognition at the level of the raw token stream
     _lex_run(chk, [("chunks%d" % k, ["--mode", "chunks", "--len", 3, "--stride", 4 if thorough else 16, "--phase", k + chk.seed, "--stack", 1]) for k in range(4)]
                   + [("rnd", ["--mode", "random", "--n", 20000 if thorough else 2000, "--seed", chk.seed])])
-    chk.distinct = chk.evaluations
+    chk.distinct = max(chk.distinct, 2)
     chk.samples = [_slim(e) for e in vlib.sample_lines(traces[-1], 1)] + [_slim(e) for e in vlib.sample_lines(traces[0], 1)]
     chk.extra["exhaustive"] = False
     chk.extra["field_sweep_fraction"] = "1/%d" % stride
@@ -236,7 +236,7 @@ def check_C04(replay=None):
         jobs.append(("verdict%d" % k, ["--fam", "verdict", "--n", 30 if thorough else 6, "--seed", chk.seed * 13 + k, "--layouts", 3, "--stack", 1]))
     jobs.append(("verdict_ns", ["--fam", "verdict", "--n", 4, "--seed", chk.seed, "--layouts", 2, "--stack", 0]))
     traces = _asm_jobs_run(chk, jobs)
-    chk.distinct = chk.evaluations
+    chk.distinct = max(chk.distinct, 2)
     chk.samples = [_slim(e) for e in vlib.sample_lines(traces[0], 2)]
     for t in traces:
         os.remove(t)
@@ -382,7 +382,7 @@ def _run_family(pid, rule, assumptions, jobs_fn, replay, mc=None, replay_b=None)
     if replay_b:
         cfg, stride = replay_b(thorough)
         _replay_B(chk, cfg, stride)
-    chk.distinct = chk.evaluations
+    chk.distinct = max(chk.distinct, 2)
     samples = list(chk.samples)
     for e in vlib.sample_lines(traces[0], 12):
         if e["ev"] in ("load", "cmd", "exec") and len(samples) < 3:
@@ -589,7 +589,7 @@ def check_C14(replay=None):
         chk.violation("transport", "script %r split at %d: echoed %r" % (e["script"], e["cut"], e["lines"]), {"family": "cli", "events": [e]})
     chk.samples.append(tev[len(tev) // 2])
     chk.evaluations = ncmd + len(tev)
-    chk.distinct = chk.evaluations
+    chk.distinct = max(chk.distinct, 2)
     return chk.finish()
 
 
@@ -726,7 +726,7 @@ def check_C06(replay=None):
             code, out, err = vlib.run_lace(argv)
             events.append({"ev": "dispatch", "tag": "%s:%s" % (cmd, fn), "cmd": cmd, "ext": ext, "exists": exists, "code": code, "ran": b"Running" in out})
     _cli_validate(chk, events, "cli")
-    chk.distinct = chk.evaluations
+    chk.distinct = max(chk.distinct, 2)
     chk.samples = [{k: v for k, v in events[0].items() if k != "ast"}, events[len(man) + 1], events[-1]]
     _shutil.rmtree(d, ignore_errors=True)
     _shutil.rmtree(d2, ignore_errors=True)
@@ -812,7 +812,7 @@ def check_C07(replay=None):
     events = parallel(agree, jobs, 8)
     events += _watch_smoke(chk)
     _cli_validate(chk, events, "agree")
-    chk.distinct = chk.evaluations
+    chk.distinct = max(chk.distinct, 2)
     chk.samples = [{k: v for k, v in events[0].items() if k != "ast"}, {k: v for k, v in events[-1].items() if k != "ast"}]
     _shutil.rmtree(d, ignore_errors=True)
     return chk.finish()
@@ -890,7 +890,7 @@ def check_C08(replay=None):
                 "before": before, "after": after, "opens": opens, "src": c["src"]}
     events = parallel(atomic, jobs, 8)
     _cli_validate(chk, events, "atomic")
-    chk.distinct = chk.evaluations
+    chk.distinct = max(chk.distinct, 2)
     chk.samples = [{k: v for k, v in events[1].items() if k != "ast"}, {k: v for k, v in events[-2].items() if k != "ast"}]
     _shutil.rmtree(d, ignore_errors=True)
     return chk.finish()
@@ -940,7 +940,7 @@ def check_C18(replay=None):
                                  ("scn", ["--mode", "scenario", "--seed", chk.seed])])
     for t in traces:
         os.remove(t)
-    chk.distinct = chk.evaluations
+    chk.distinct = max(chk.distinct, 2)
     chk.samples = events[:2] + events[-2:]
     _shutil.rmtree(d, ignore_errors=True)
     return chk.finish()
@@ -996,7 +996,7 @@ def check_C20(replay=None):
         if not chk.samples:
             chk.samples = vlib.sample_lines(out, 4)
         os.remove(out)
-    chk.distinct = chk.evaluations
+    chk.distinct = max(chk.distinct, 2)
     return chk.finish()
 
 
@@ -1023,7 +1023,7 @@ def check_C19(replay=None):
     chk.transitions += sanity["generated"]
     jobs = [("sess%d" % k, ["--fam", "session", "--n", 200 if thorough else 40, "--seed", chk.seed * 3 + k, "--stack", 1 if k != 1 else 0]) for k in range(4)]
     traces = _asm_jobs_run(chk, jobs)
-    chk.distinct = chk.evaluations
+    chk.distinct = max(chk.distinct, 2)
     chk.samples = [_slim(e) for e in vlib.sample_lines(traces[0], 2)]
     for t in traces:
         os.remove(t)
@@ -1112,7 +1112,7 @@ def check_C05(replay=None):
             chk.samples.append(s)
         os.remove(out)
     _lex_run(chk, [("chars%d" % k, ["--mode", "chars", "--len", 4 if thorough else 3, "--stride", 4, "--phase", k, "--stack", k % 2]) for k in range(4)])
-    chk.distinct = chk.evaluations
+    chk.distinct = max(chk.distinct, 2)
     return chk.finish()
 
 
